@@ -47,7 +47,8 @@ def _run_shard(pid, tier, seed, shard, nshards, outdir, timeout, env_fn=None):
         r["partial"] = _partial(out)
         return r
     if p.returncode != 0 or not os.path.exists(out):
-        return {"shard": shard, "fatal": "crash", "detail": "exit %d" % p.returncode,
+        last = [ln for ln in (p.stderr or "").strip().splitlines() if ln.strip()][-1:] or [""]
+        return {"shard": shard, "fatal": "crash", "detail": "exit %d %s" % (p.returncode, last[0][:160]),
                 "stderr": p.stderr[-3000:], "stdout": p.stdout[-1000:], "partial": _partial(out)}
     rep = json.load(open(out))
     rep["proc_wall_s"] = round(time.time() - t0, 2)
@@ -205,7 +206,10 @@ def main(argv=None):
 
     nshards = mod.shards(tier)
     timeout = mod.TIMEOUT[tier] if hasattr(mod, "TIMEOUT") else (2400 if tier == "quick" else 6 * 3600)
-    outdir = tempfile.mkdtemp(prefix="pv_%s_" % pid)
+    # scratch for the shard reports: inside this checkout (git-ignored), not under /tmp where other clean-ups reach it
+    scratch_root = os.path.join(os.path.dirname(os.path.dirname(os.path.abspath(__file__))), ".work", "shards")
+    os.makedirs(scratch_root, exist_ok=True)
+    outdir = tempfile.mkdtemp(prefix="pv_%s_" % pid, dir=scratch_root)
     try:
         if args.shard is not None:
             reports = [_run_shard(pid, tier, seed, args.shard, nshards, outdir, timeout, getattr(mod, "SHARD_ENV", None))]
